@@ -9,7 +9,6 @@ import (
 	"github.com/filecoin-project/go-bitfield"
 	rlepluslazy "github.com/filecoin-project/go-bitfield/rle"
 	"github.com/filecoin-project/go-f3/gpbft"
-	"github.com/filecoin-project/go-f3/verifh/vsig"
 )
 
 // Strategy is the seeded "strategy program" of the adversary: which templates
@@ -70,7 +69,7 @@ type Adversary struct {
 
 	Sent, accepted, rejected int
 	PerTemplate              map[string]int
-	signer                   *vsig.Signer
+	signer                   gpbft.Signer
 }
 
 func newAdversary(w *World) *Adversary {
@@ -85,7 +84,7 @@ func newAdversary(w *World) *Adversary {
 			keys = append(keys, m.Key)
 		}
 	}
-	a.signer = vsig.NewSigner(keys...)
+	a.signer = w.Sc.Sig().NewSigner(keys...)
 	return a
 }
 
@@ -187,7 +186,7 @@ func (a *Adversary) tryForge(pk poolKey) *gpbft.Justification {
 		if _, have := sigs[idx]; have {
 			continue
 		}
-		sigs[idx] = vsig.RawSign(m.Key, toSign)
+		sigs[idx] = a.w.Sc.Sig().RawSign(m.Key, toSign)
 		power += t.PT.ScaledPower[idx]
 	}
 	if 2*power <= t.PT.ScaledTotal {
@@ -269,7 +268,7 @@ func (a *Adversary) build(mi int, p gpbft.Payload, j *gpbft.Justification) *gpbf
 	msg, err := mb.Build(a.w.ctx, a.signer, m.ID)
 	if err != nil {
 		// zero-power member: craft by hand (must be rejected by validators)
-		return &gpbft.GMessage{Sender: m.ID, Vote: p, Signature: vsig.RawSign(m.Key, p.MarshalForSigning(NetworkName)), Justification: j}
+		return &gpbft.GMessage{Sender: m.ID, Vote: p, Signature: a.w.Sc.Sig().RawSign(m.Key, p.MarshalForSigning(NetworkName)), Justification: j}
 	}
 	return msg
 }
